@@ -34,6 +34,9 @@ def gen_sel(rng, fft):
             rng.shuffle(idx)
         if rng.random() < 0.1:
             idx = idx + [idx[0]]                 # a repeated carrier
+        if rng.random() < 0.2:
+            # carriers around DC written with negative indexes (np.r_[-3:0, 1:4]): ordinary numpy indexing, -k is carrier fft-k
+            idx = [i - fft if (i > fft // 2 or rng.random() < 0.2) and i > 0 else i for i in idx]
         return {"idx": idx, "as_list": rng.random() < 0.25}
     start = rng.choice([None, 0, 0, 1, rng.randrange(fft)])
     stop = rng.choice([None, fft, fft, rng.randint(1, fft), fft + 3])
@@ -400,7 +403,7 @@ def execute(plan):
                         selidx = list(range(fft))
                         pysel = None
                     elif "idx" in sel:
-                        selidx = list(sel["idx"])
+                        selidx = [i % fft for i in sel["idx"]]
                         pysel = list(sel["idx"]) if sel.get("as_list") else np.array(sel["idx"])
                     else:
                         pysel = slice(*sel["slice"])
